@@ -491,6 +491,7 @@ type Loc struct {
 	Idx   Term
 	Path  []PathEl
 	RootT types.Type // type stored at the root (cell content / field / element)
+	Frozen *Term     // sentinel global: the (immutable, non-nil) value every load yields
 }
 
 func (l *Loc) with(pe PathEl) *Loc {
@@ -712,6 +713,9 @@ func (vc *VC) loadLoc(st *State, l *Loc) (Val, error) {
 		}
 		root = cv.T
 	case LField, LHeapCell:
+		if l.Frozen != nil && len(l.Path) == 0 {
+			return Val{T: *l.Frozen, Typ: t}, nil
+		}
 		_, vs := arraySorts(vc.heapSortOf(l))
 		_ = vs
 		h := vc.heapGet(st, l.Key, vc.heapSortOf(l))
